@@ -1213,7 +1213,11 @@ func (h *c16H) waitFor(c *c16Cli, what string, cond func() bool) bool {
 		// handler or that the broker may have closed when it re-established the
 		// delete watch (Client.close ends the write loop, queued answers are lost,
 		// the TCP connection stays until the client's next packet)
-		if c.dead() || c.superseded || c.mayClose || h.closedAtWatch(c) || h.stop() {
+		// (the CONNACK is written by the connection handler itself, not by the
+		// write loop: it always comes, and the harness must not leave a CONNECT
+		// in its handshake behind)
+		giveUp := what != "connack" && (c.superseded || c.mayClose || h.closedAtWatch(c))
+		if c.dead() || giveUp || h.stop() {
 			return cond()
 		}
 		ch := c.note
@@ -1248,6 +1252,25 @@ func (h *c16H) closedAtWatch(c *c16Cli) bool {
 	}
 	cl := h.clOf[c.cid]
 	return cl != nil && cl.statusFlag == Disconnected
+}
+
+// waitPoll polls a condition nobody announces (doubling steps, usual time-out).
+func (h *c16H) waitPoll(what string, cond func() bool) bool {
+	deadline := time.Now().Add(c16Timeout)
+	for step := 53 * time.Millisecond; !cond(); {
+		if h.stuck || h.r.Aborted() {
+			return false
+		}
+		if !time.Now().Before(deadline) {
+			h.noResponse(nil, what)
+			return false
+		}
+		h.r.Sleep(step)
+		if step < time.Minute {
+			step *= 2
+		}
+	}
+	return true
 }
 
 // waitH waits on the harness-wide notification channel.
@@ -3233,8 +3256,33 @@ func c16Exec(r *sim.Run, sci interface{}) {
 	}
 	if !h.stuck {
 		r.Sleep(settle)
+		// every broken delete watch has been re-established (both storage calls
+		// of Broker.reconnectWatcher made): a re-establishment parked by the
+		// scheduler must not run - with its gap-delete - into the final checks
+		h.waitPoll("watch-reestablishment", func() bool {
+			return h.st.nPrefix >= h.st.breaks && h.st.nWatchCalls-1 >= h.st.breaks
+		})
+		if h.st.breaks > 0 {
+			r.Sleep(settle)
+		}
+	}
+	if !h.stuck {
 		h.final()
 	}
+	// no CONNECT is left in its handshake when the broker is closed (closing a
+	// broker under a connecting client is not this property's subject)
+	h.waitPoll("handshakes-finished", func() bool {
+		for _, c := range append(append([]*c16Cli{}, h.clis...), h.bys...) {
+			if c.conn == nil || c.connack != nil || c.dead() {
+				continue
+			}
+			if s := h.srv[c.cid]; s != nil && s.returned {
+				continue
+			}
+			return false
+		}
+		return true
+	})
 
 	// signature / non-triviality
 	var sig strings.Builder
